@@ -2,6 +2,7 @@
 //! Complete grid: wake-up pattern x trigger x spawn kind x number of simultaneously runnable
 //! tasks N, on a real simulation. Every task logs `SimTime::now()` right after its await.
 
+use des::net::processing::{ProcessingElement, ProcessingStack};
 use des::prelude::*;
 use des::time::sleep;
 use std::sync::{Arc, Mutex};
@@ -41,8 +42,14 @@ enum Pat {
     TimerThenNotify,
     /// a task that calls yield_now() N times after its sleep
     Yield,
+    /// a processing element consumes the message (handler skipped) and releases N tasks
+    ElementConsumes,
+    /// a processing element releases N tasks in event_start of a message event
+    ElementStartHook,
+    /// a processing element releases N tasks in event_end of a message event
+    ElementEndHook,
 }
-const PATS: [Pat; 12] = [
+const PATS: [Pat; 15] = [
     Pat::Sleepers,
     Pat::Chain,
     Pat::NotifyAll,
@@ -55,6 +62,9 @@ const PATS: [Pat; 12] = [
     Pat::Restart,
     Pat::TimerThenNotify,
     Pat::Yield,
+    Pat::ElementConsumes,
+    Pat::ElementStartHook,
+    Pat::ElementEndHook,
 ];
 
 #[derive(Clone, Copy, Debug, PartialEq, Eq)]
@@ -67,6 +77,31 @@ fn spawn_kind<F: std::future::Future<Output = ()> + Send + 'static>(k: Kind, f: 
     match k {
         Kind::Runtime => tokio::spawn(f),
         Kind::Local => tokio::task::spawn_local(f),
+    }
+}
+
+/// processing element that releases the waiting tasks at the 1 s message event
+struct Waker {
+    pat: Pat,
+    notify: Arc<Notify>,
+}
+impl ProcessingElement for Waker {
+    fn event_start(&mut self) {
+        if self.pat == Pat::ElementStartHook && now() == 1000 {
+            self.notify.notify_waiters();
+        }
+    }
+    fn event_end(&mut self) {
+        if self.pat == Pat::ElementEndHook && now() == 1000 {
+            self.notify.notify_waiters();
+        }
+    }
+    fn incoming(&mut self, m: Message) -> Option<Message> {
+        if self.pat == Pat::ElementConsumes && m.header().kind == 8 {
+            self.notify.notify_waiters();
+            return None;
+        }
+        Some(m)
     }
 }
 
@@ -91,6 +126,12 @@ impl Mo {
 
 impl Module for Mo {
     fn reset(&mut self) {}
+    fn stack(&self, mut s: ProcessingStack) -> ProcessingStack {
+        if matches!(self.pat, Pat::ElementConsumes | Pat::ElementStartHook | Pat::ElementEndHook) {
+            s.append(Waker { pat: self.pat, notify: self.notify.clone() });
+        }
+        s
+    }
     fn at_sim_start(&mut self, _: usize) {
         let n = self.n;
         let k = self.kind;
@@ -119,6 +160,17 @@ impl Module for Mo {
                     });
                 }
                 schedule_in(Message::default().kind(1), Duration::from_secs(1));
+            }
+            Pat::ElementConsumes | Pat::ElementStartHook | Pat::ElementEndHook => {
+                for i in 0..n {
+                    let l = self.log.clone();
+                    let nf = self.notify.clone();
+                    spawn_kind(k, async move {
+                        nf.notified().await;
+                        l.lock().unwrap().push((i as u32, now()));
+                    });
+                }
+                schedule_in(Message::default().kind(8), Duration::from_secs(1));
             }
             Pat::NotifyAll | Pat::TimerThenNotify => {
                 for i in 0..n {
@@ -413,7 +465,7 @@ impl Property for C06 {
         ]
     }
     fn required_features(&self, _tier: Tier) -> Vec<&'static str> {
-        vec!["n_at_least_61_runtime_tasks", "wake_chain", "restart_trigger", "start_stage_trigger", "message_trigger", "timer_trigger", "local_tasks"]
+        vec!["n_at_least_61_runtime_tasks", "wake_chain", "restart_trigger", "start_stage_trigger", "message_trigger", "timer_trigger", "local_tasks", "processing_element_trigger"]
     }
     fn finding_classes(&self) -> Vec<&'static str> {
         vec!["deferred_wake_in_event", "spawn_local_gt60_polls"]
@@ -447,6 +499,7 @@ impl Property for C06 {
                         Pat::StartStage => ctx.hit("start_stage_trigger"),
                         Pat::Sleepers => ctx.hit("timer_trigger"),
                         Pat::NotifyAll => ctx.hit("message_trigger"),
+                        Pat::ElementConsumes | Pat::ElementStartHook | Pat::ElementEndHook => ctx.hit("processing_element_trigger"),
                         _ => {}
                     }
                     match run_case(&c) {
